@@ -262,7 +262,7 @@ TEXTUAL = [
     ("C02", "kronecker-ignores-reverse", "tensorly/tenalg/core_tenalg/_kronecker.py", "    for i, matrix in enumerate(matrices[::order]):", "    for i, matrix in enumerate(matrices):"),
     ("C02", "memory-mttkrp-drops-weights", "tensorly/tenalg/core_tenalg/mttkrp.py", "        return T.stack(mttkrp_parts, axis=1) * T.reshape(weights, (1, -1))", "        return T.stack(mttkrp_parts, axis=1)"),
     ("C02", "unknown-keyword", "tensorly/cp_tensor.py", "khatri_rao(factors, skip_matrix=0)", "khatri_rao(factors, skip=0)"),
-    ("C03", "cp-ctor-skips-validation", "tensorly/cp_tensor.py", "        shape, rank = _validate_cp_tensor(cp_tensor)\n        weights, factors = cp_tensor\n\n        if weights is None:", "        weights, factors = cp_tensor\n        shape, rank = tuple(f.shape[0] for f in factors), factors[0].shape[1]\n\n        if weights is None:"),
+    ("C03", "cp-ctor-skips-validation", "tensorly/cp_tensor.py", "        shape, rank = _validate_cp_tensor(cp_tensor)\n        weights, factors = cp_tensor\n", "        weights, factors = cp_tensor\n        shape, rank = tuple(f.shape[0] for f in factors), factors[0].shape[1]\n"),
     ("C03", "tt-vec-of-other-family", "tensorly/tt_tensor.py", "    return tl.tensor_to_vec(tt_to_tensor(factors))", "    return tl.tensor_to_vec(tt_to_tensor(factors[::-1]))"),
     ("C03", "tucker-unfolded-wrong-mode", "tensorly/tucker_tensor.py", "        mode,\n    )", "        mode + 1,\n    )"),
     ("C03", "cp-vec-drops-weights", "tensorly/cp_tensor.py", "    return tensor_to_vec(cp_to_tensor(cp_tensor))", "    return tensor_to_vec(cp_to_tensor((None, cp_tensor[1])))"),
@@ -283,12 +283,16 @@ TEXTUAL = [
     ("C11", "cross-l1-l2", "tensorly/solvers/admm.py", "            l1_reg=l1_reg,\n            l2_reg=l2_reg,", "            l1_reg=l2_reg,\n            l2_reg=l1_reg,"),
     ("C11", "drop-simplex-forward", "tensorly/decomposition/_constrained_cp.py", "                simplex=simplex,\n                normalized_sparsity=normalized_sparsity,\n                soft_sparsity=soft_sparsity,\n                smoothness=smoothness,\n                monotonicity=monotonicity,\n                hard_sparsity=hard_sparsity,\n                tol=tol_inner,", "                normalized_sparsity=normalized_sparsity,\n                soft_sparsity=soft_sparsity,\n                smoothness=smoothness,\n                monotonicity=monotonicity,\n                hard_sparsity=hard_sparsity,\n                tol=tol_inner,"),
     ("C11", "swap-table-rows", "tensorly/tenalg/proximal.py", "        \"unimodality\",\n        \"normalize\",", "        \"normalize\",\n        \"unimodality\","),
-    ("C11", "admm-returns-split", "tensorly/solvers/admm.py", "    return x, x_split, dual_var\n", "    return tl.transpose(x_split), x_split, dual_var\n"),
+    ("C11", "admm-returns-split", "tensorly/solvers/admm.py", "            break\n    return x, x_split, dual_var\n", "            break\n    return tl.transpose(x_split), x_split, dual_var\n"),
     ("C11", "wrong-order-index", "tensorly/decomposition/_constrained_cp.py", "                order=mode,", "                order=0,"),
     ("C11", "nonneg-handler-upper-bound", "tensorly/tenalg/proximal.py", "        return tl.clip(tensor, a_min=0)", "        return tl.clip(tensor, 0, tl.max(tensor))"),
     ("C11", "double-constraint-not-rejected", "tensorly/tenalg/proximal.py", "                    if mode in modes_constrained:\n                        raise ValueError(\n                            \"You selected two constraints for the same mode. Consider to check your input\"\n                        )\n                    modes_constrained.add(mode)\n            elif", "                    modes_constrained.add(mode)\n            elif"),
     ("C11", "dispatch-wrong-operator", "tensorly/tenalg/proximal.py", "        return monotonicity_prox(tensor)", "        return unimodality_prox(tensor)"),
     ("C11", "init-skips-prox", "tensorly/decomposition/_constrained_cp.py", "    for i in range(n_modes):\n        factors[i] = proximal_operator(", "    for i in range(n_modes - 1):\n        factors[i] = proximal_operator("),
+    ("C01", "matricize-fast-path-ignores-columns", "tensorly/base.py", "    return tl.reshape(\n        tl.transpose(tensor, row_indices + column_indices), (row_size, column_size)\n    )", "    if row_indices == list(range(len(row_indices))):\n        return tl.reshape(tensor, (row_size, column_size))\n    return tl.reshape(\n        tl.transpose(tensor, row_indices + column_indices), (row_size, column_size)\n    )"),
+    ("C11", "dict-spec-registered-by-position", "tensorly/tenalg/proximal.py", "                parameters[modes[i]] = list_or_dict_or_float[modes[i]]", "                parameters[i] = list_or_dict_or_float[modes[i]]"),
+    ("C06", "parafac-accepted-jump-keeps-old-error", "tensorly/decomposition/_cp.py", "                unnorml_rec_error = new_rec_error\n", "                unnorml_rec_error = unnorml_rec_error\n"),
+    ("C18", "numpy-scalar-jump", "tensorly/decomposition/_cp.py", "jump = iteration ** (1.0 / acc_pow)", "jump = np.power(iteration, 1.0 / acc_pow)"),
     ("C19", "cp-weight-tensor-before-update", "tensorly/regression/cp_regression.py", None, None),
     ("C19", "tucker-vec-from-stale-core", "tensorly/regression/tucker_regression.py", "        self.vec_W_ = tucker_to_vec((G, W))", "        self.vec_W_ = tensor_to_vec(weight_tensor_) if False else tucker_to_vec((G, W[::-1]))"),
     ("C19", "predict-uses-unexposed", "tensorly/regression/tucker_regression.py", "        return T.dot(partial_tensor_to_vec(X), self.vec_W_)", "        return T.dot(partial_tensor_to_vec(X), self.vec_W)"),
